@@ -221,6 +221,9 @@ def gen(seed, tier):
             if rng.random() < 0.5:
                 chain0[bm][str(ki)] = newval('c')
     ntx = rng.choice([1, 1, 2, 3, 5]) if tier == 'thorough' else rng.choice([1, 1, 2, 3])
+    long_run = rng.random() < (0.15 if tier == 'thorough' else 0.03)
+    if long_run:
+        ntx = rng.choice([6, 9])
     p_fail = rng.choice([0.0, 0.0, 0.15, 0.3])
     p_fault = rng.choice([0.0, 0.0, 0.2, 0.5])
     opmix = [o for o in ('get', 'mem', 'upd_some', 'upd_none', 'gau_some', 'gau_none', 'dup_drop', 'dup_keep', 'dup_both') if rng.random() < 0.75] or ['get', 'upd_some']
@@ -236,7 +239,7 @@ def gen(seed, tier):
                 lit[str(ki)] = newval('l')
             st['lit'] = lit
         steps.append(st)
-        for _ in range(rng.randint(1, 12 if tier == 'thorough' else 8)):
+        for _ in range(rng.randint(10, 30) if long_run else rng.randint(1, 12 if tier == 'thorough' else 8)):
             op = rng.choice(opmix)
             s = {'op': op, 'k': rng.randrange(len(keys)), 'v': newval('v')}
             if op.startswith('dup_'):
